@@ -716,6 +716,11 @@ fn apply_sack_to_sent_queue(
 impl<'a> Drop for SctpCleanupGuard<'a> {
     fn drop(&mut self) {
         *self.inner.state.lock() = SctpState::Closed;
+        // The association can end from inside the run loop (heartbeat timeout, peer
+        // ABORT/SHUTDOWN-ACK, retransmission limit) without anyone calling close():
+        // wake tasks parked in send_data_raw()'s flow-control loop so they observe
+        // Closed and return instead of waiting for window credit forever.
+        self.inner.flow_control_notify.notify_waiters();
 
         let channels = self.inner.data_channels.lock();
         for weak_dc in channels.iter() {
